@@ -9,10 +9,9 @@ From Verif Require Export CPrims CppPrims PyPrims.
 Open Scope N_scope.
 
 (* ---- C++ ---- *)
-(* any_bitspan::subspan(bits) as in the CURRENT source (fix commit 939fc9d: "subspan never forms a pointer beyond one past the end
-   of the data"): the pointer advances by data_.size() - newSize = min(offset_bytes, size).  CppPrims.subspan / subspan_bytes are
-   the text before that commit (pointer + offset_bytes, unclamped); they are kept only because Codec/CppWalkerInst.v unfolds them,
-   and agree with these whenever offset_bytes <= data_.size() (PrimsExtThm.subspan_clamped_eq_old). *)
+(* any_bitspan::subspan(bits) and subspan_bytes(n), current source (/repo 939fc9d: "subspan never forms a pointer beyond one past the
+   end of the data"): the pointer advances by data_.size() - newSize = min(offset_bytes, size).  (The unclamped text of before
+   that commit is History/C14_history.v.) *)
 Definition subspan_clamped (s : span) (bits : N) : span :=
   let offset_bits := w64 (sp_off s + bits) in
   let offset_bytes := offset_bits / 8 in
